@@ -1,6 +1,7 @@
 """C18 — site-information history lookup returns the entry valid at the requested date.
 
-translate:   translator/extract_siteinfo.py → Generated/SiteInfoTables.lean (module list, registries)
+translate:   translator/extract_siteinfo.py → Generated/SiteInfoTables.lean (module list, registries, per registered
+             history class the blocks / date fields it reads and how it keys the history, from its source text)
 prove:       lean/Midgard/Props/C18.lean (interval search, `last`, open ends, station normalisation,
              combined = modules) about lean/Midgard/Model/SiteInfo.lean
 correspond:  Antenna/Receiver/Eccentricity/SiteCoord/Identifier.get/get_history and
@@ -8,7 +9,8 @@ correspond:  Antenna/Receiver/Eccentricity/SiteCoord/Identifier.get/get_history 
              versus the compiled model, query sequences on one shared source dict
 oracle:      the property stated directly on the real code: half-open interval containment with
              None/min/max as ∓∞, `last` = latest start, combined = individual modules, any letter
-             case / both station forms, source data unchanged and repeated queries identical
+             case / every kind of the stations argument (text, containers, one-shot iterables), source data unchanged
+             and repeated queries identical
 """
 from __future__ import annotations
 
@@ -769,6 +771,24 @@ def structural(ctx, mods):
     lo, hi = ctx.driver.ask1("c18 consts").split()
     if int(lo) != 0 or int(hi) != DMAX:
         ctx.disagree("datetime.min/max constants", {"consts": [lo, hi]}, [lo, hi], [0, DMAX])
+    # the source dictionaries the harness builds have the blocks and date fields every registered history class of the
+    # file sources reads (regenerated table, compared with the model's in theorem history_shapes)
+    from translator import extract_siteinfo
+
+    t0 = us_of(datetime(2000, 1, 1))
+    snx = build_real("snx", [{"key": "osls", "ant": [[t0, None, 1]], "rcv": [[t0, None, 2]], "ecc": [[t0, None, 3]], "sid": 4,
+                              "epochs": [[1, t0, None, 5]], "est": [[1, 0, 6]]}])["osls"]
+    ssc = build_real("ssc", [{"key": "osls", "tag": 1, "pv": [[1, t0, None, 2]]}])["osls"]
+    for mod, src, cls, blocks, recs, dfrom, dto, keyed in extract_siteinfo.extract()["shapes"]:
+        if src == "m3g":
+            continue
+        ctx.count(f"history-class:{src}:{cls}")
+        built = snx if src == "snx" else ssc
+        rows = [r for b in blocks for r in built.get(b, [])] if src == "snx" else list(built["pos_vel"].values())
+        ok = all(b in built for b in blocks) and all(any(k in r for r in rows) for k in dfrom + dto)
+        if not ok:
+            ctx.disagree("history class reads blocks/date fields the harness does not build", {"class": cls},
+                         sorted(built), [blocks, dfrom, dto])
 
 
 def run(ctx: Ctx):
@@ -783,7 +803,7 @@ def run(ctx: Ctx):
     ctx.rule = ("a case = one in-memory SINEX or SSC source dict (1-3 stations, lower/upper/mixed-case keys, every block "
                 "with 0..8 contiguous/gapped/30-s-gapped/open-ended/duplicated/overlapping/empty intervals, blocks "
                 "absent, empty source) + a sequence of queries on that ONE dict (module or SiteInfo, get/get_history, "
-                "stations as padded comma text or list in random letter case, known/unknown, dates on every boundary "
+                "stations as padded comma text, list, tuple, set, dict keys, numpy array, generator, map, filter, iterator or reversed object in random letter case, known/unknown, dates on every boundary "
                 "±1 µs ±1 s, midpoints, gaps, before/after, datetime.min/max, 'last', None; some queries repeated); "
                 "plus a fixed boundary set over 6 history shapes × 2 sources × 2 key cases. Non-trivial: the source "
                 "has at least one interval and a query has a date; distinct by canonical JSON of the case")
